@@ -48,6 +48,9 @@ class CProg:
                 vs.append(z3.Real('%s%d' % (p, j)))
         return vs
 
+    def int_vars(self, vs):
+        return [vs[j] for j in range(self.n) if self.vtype[j] in 'BI']
+
     def row_term(self, i, vs):
         z3 = z3mod()
         d, c, s = self.rows[i]
